@@ -1670,6 +1670,11 @@ def table_cell_fn(ctx: "Wtp", token: str) -> None:
             _parser_push(ctx, NodeKind.TABLE_ROW)
             break
         if node.kind == NodeKind.TABLE_CAPTION:
+            if token == "|" and ctx.beginning_of_line and ctx.begline_enabled:
+                # A cell line directly after the caption (no "|-") starts
+                # the first row, like "!" in table_hdr_cell_fn()
+                _parser_pop(ctx, False)
+                continue
             return text_fn(ctx, token)
         if node.kind == NodeKind.HTML:
             # Inside nested HTML, treat | and || as normal text
